@@ -21,6 +21,7 @@ package jobcontroller
 //@   requires rj != nil
 //@   ensures [C08,C12] result == (rj.Spec.KillTimestamp == nil && !(job.LabelKeyAdmissionErrorMessage in rj.Annotations))
 
+//@ pure killDueAt(rj *execution.Job, c Int) bool = rj.Spec.KillTimestamp != nil && !rj.Spec.KillTimestamp.Time.IsZero() && ns(rj.Spec.KillTimestamp.Time) <= c
 //@ pure killDue(rj *execution.Job) bool = rj.Spec.KillTimestamp != nil && !rj.Spec.KillTimestamp.Time.IsZero() && ns(rj.Spec.KillTimestamp.Time) <= clock
 
 // Leftover tasks are killed once the completion strategy is decided: AllSuccessful failed, or AnySuccessful succeeded.
@@ -70,3 +71,59 @@ package jobcontroller
 //@        && finishNs(rj) + job.ttlSeconds(rj, cfg) * 1000000000 <= clock && jwKind[old(jwN)] == 4 && jwName[old(jwN)] == rj.Name
 //@   ensures [C13] deleted-once-expired: !deleting(rj) && rj.Status.Condition.Finished != nil && finishNs(rj) + job.ttlSeconds(rj, cfg) * 1000000000 <= old(clock) ==> jwN == old(jwN) + 1
 //@   ensures [C13] job-untouched: *rj == old(*rj)
+
+// ---- deleting tasks ---------------------------------------------------------------------------------------------------
+
+//@ func Reconciler.enqueueAfter
+//@   tags C12, C13
+//@   requires w != nil && rj != nil
+//@   modifies wakeN, wakeKey, wakeAfter
+//@   ensures [C12,C13] arms-wakeup: wakeN == old(wakeN) + 1 && wakeKey[old(wakeN)] == nsname(rj.Namespace, rj.Name) && wakeAfter[old(wakeN)] == max(1000000000, duration)
+
+// the per-task closure of deleteTasks: requests deletion of exactly this task (unless it is already being deleted
+// and the request is not forced); NotFound is benign, other errors are returned
+//@ func Reconciler.deleteTasks$1
+//@   tags C12, C13
+//@   modifies jobtasks.delReq, jobtasks.forceReq, clock
+//@   ensures [C12,C13] only-this-task: forall n string :: jobtasks.delReq[n] ==> (old(jobtasks.delReq[n]) || n == jobtasks.taskName(task))
+//@   ensures [C12] force-only-when-forced: forall n string :: jobtasks.forceReq[n] ==> (old(jobtasks.forceReq[n]) || (force && n == jobtasks.taskName(task)))
+//@   ensures [C12,C13] requested-unless-already-deleting: result == nil ==> jobtasks.delReq[jobtasks.taskName(task)]
+//@        || (!force && jobtasks.taskDeletionTs(task) != nil && !jobtasks.taskDeletionTs(task).Time.IsZero() && ns(jobtasks.taskDeletionTs(task).Time) < clock)
+//@   ensures [C12,C13] requests-only-grow: forall n string :: old(jobtasks.delReq[n]) ==> jobtasks.delReq[n]
+
+// deleteTasks runs the closure above on every task concurrently (goroutines, WaitGroup, channel: outside the verified
+// subset). ASSUMED: the effect is the union of the per-task effects and the result is nil iff every closure returned nil.
+//@ extern func Reconciler.deleteTasks
+//@   params w, ctx, rj, task, force
+//@   modifies jobtasks.delReq, jobtasks.forceReq, clock
+//@   ensures forall n string :: jobtasks.delReq[n] ==> (old(jobtasks.delReq[n]) || (exists k int :: 0 <= k && k < len(task) && n == jobtasks.taskName(task[k])))
+//@   ensures forall n string :: jobtasks.forceReq[n] ==> (old(jobtasks.forceReq[n]) || (force && (exists k int :: 0 <= k && k < len(task) && n == jobtasks.taskName(task[k]))))
+//@   ensures forall n string :: old(jobtasks.delReq[n]) ==> jobtasks.delReq[n]
+//@   ensures result == nil ==> (forall k int :: 0 <= k && k < len(task) ==> jobtasks.delReq[jobtasks.taskName(task[k])]
+//@        || (!force && jobtasks.taskDeletionTs(task[k]) != nil && !jobtasks.taskDeletionTs(task[k]).Time.IsZero() && ns(jobtasks.taskDeletionTs(task[k]).Time) < clock))
+//@   ensures clock >= old(clock)
+
+// ---- kill -------------------------------------------------------------------------------------------------------------
+
+//@ pure unfinished(t jobtasks.Task) bool = jobtasks.taskRefOf(t).FinishTimestamp.IsZero()
+//@ pure notDeleting(t jobtasks.Task) bool = jobtasks.taskDeletionTs(t).IsZero()
+//@ pure inTasks(ts []jobtasks.Task, t jobtasks.Task) bool = exists j int :: 0 <= j && j < len(ts) && ts[j] == t
+
+//@ func isTaskFinished
+//@   ensures [C12] result == !unfinished(task)
+
+//@ func Reconciler.handleKillJob
+//@   tags C12
+//@   requires w != nil && rj != nil
+//@   modifies jobtasks.delReq, jobtasks.forceReq, clock
+//@   loop 1 invariant -1 <= rangeindex && rangeindex < len(tasks) && deletingNames != nil
+//@   loop 1 invariant forall k int :: 0 <= k && k < len(needDelete) ==> inTasks(tasks, needDelete[k]) && unfinished(needDelete[k]) && notDeleting(needDelete[k])
+//@   loop 1 invariant forall j int :: 0 <= j && j <= rangeindex && unfinished(tasks[j]) && notDeleting(tasks[j]) ==> inTasks(needDelete, tasks[j])
+//@   loop 2 invariant -1 <= rangeindex
+//@   ensures [C12] no-kill-before-timestamp: (exists n string :: jobtasks.delReq[n] && !old(jobtasks.delReq[n])) ==> killDue(rj) || parallelDecidedKill(rj)
+//@   ensures [C12] only-live-tasks-of-this-job: forall n string :: jobtasks.delReq[n] && !old(jobtasks.delReq[n]) ==>
+//@        (exists j int :: 0 <= j && j < len(tasks) && jobtasks.taskName(tasks[j]) == n && unfinished(tasks[j]) && notDeleting(tasks[j]))
+//@   ensures [C12] never-forced: forall n string :: jobtasks.forceReq[n] ==> old(jobtasks.forceReq[n])
+//@   ensures [C12] sweep-complete: result1 == nil && (killDueAt(rj, old(clock)) || parallelDecidedKill(rj)) ==>
+//@        (forall j int :: 0 <= j && j < len(tasks) && unfinished(tasks[j]) && notDeleting(tasks[j]) ==> jobtasks.delReq[jobtasks.taskName(tasks[j])])
+//@   ensures [C12] cached-job-untouched: *rj == old(*rj)
